@@ -172,6 +172,8 @@ def run(repo, tier):
     run_forward(repo, res, MODS)
     run_axis(repo, res, MODS)
     a1_collect(repo, res, modules={'photutils.background.background_2d', 'photutils.background.interpolators', 'photutils.background.core'})
+    from .common import run_nonfinite
+    run_nonfinite(repo, res, MODS)
     res.floor('LP4', 9)
     res.floor('MIRROR', 2)
     res.floor('SIB', 20)
